@@ -13,7 +13,7 @@ def wcschedSortNats (l : List Nat) : List Nat := l.foldr insertNat []
 def wcsState (s : Sys) : String :=
   "files=" ++ showNats (wcschedSortNats (s.cache.map (·.1))) ++ " infl=" ++ showNats (wcschedSortNats s.inflight)
 
-def wcschedStep (o : OpLine) : String :=
+def wcschedPass (o : OpLine) : String :=
   match o.name, o.nats? "lens", o.nat? "thr", o.nat? "count", o.nat? "size", o.nat? "fail" with
   | "pass", some lens, some thr, some count, some size, some fail =>
     let cfg : Cfg := { thr := thr, maxCount := count, maxSize := size }
@@ -32,5 +32,71 @@ def wcschedStep (o : OpLine) : String :=
       first ++ " later " ++ wcsState s4
     else first
   | _, _, _, _, _, _ => "=> bad-op"
+
+/-! `span`: rounds of puts, each followed by one scheduler pass, while chosen main-storage calls (the first call that
+carries a victim id) are held open; the held calls are then ended one by one (ok / failure); optional retry after the
+back-off. One free worker always exists, so every hand-over is taken. Runs on `BSys` (arrays behind the batches). -/
+
+def wcschedBState (s : BSys) : String :=
+  "files=" ++ showNats (wcschedSortNats (s.cache.map (·.1))) ++ " infl=" ++ showNats (wcschedSortNats s.inflight)
+
+def wcschedInsertCall (x : List Nat) : List (List Nat) → List (List Nat)
+  | [] => [x]
+  | y :: ys => if x.headD 0 ≤ y.headD 0 then x :: y :: ys else y :: wcschedInsertCall x ys
+
+def wcschedShowCalls (bs : List (List Nat)) : String :=
+  if bs.isEmpty then "-"
+  else String.join (((bs.map wcschedSortNats).foldr wcschedInsertCall []).map fun b => "[" ++ showNats b ++ "]")
+
+/-- end (storage accepting) every running job that holds none of the `held` ids -/
+def wcschedFinishFree (cfg : Cfg) (held : List Nat) : Nat → BSys → BSys
+  | 0, s => s
+  | fuel + 1, s =>
+    match s.jobs.findIdx? (fun j => !(j.given.any fun a => held.contains a)) with
+    | some i => wcschedFinishFree cfg held fuel (stepB cfg false s (.finish i true))
+    | none => s
+
+def wcschedTakeRounds : List Nat → List (Nat × Nat) → Option (List (List (Nat × Nat)))
+  | [], [] => some []
+  | [], _ :: _ => none
+  | n :: ns, objs =>
+    if n = 0 ∨ objs.length < n then none
+    else (wcschedTakeRounds ns (objs.drop n)).map fun r => objs.take n :: r
+
+def wcschedSpan (o : OpLine) : String :=
+  match o.nats? "lens", o.nats? "rounds", o.nat? "thr", o.nat? "count", o.nat? "size", o.nats? "stall", o.nats? "end" with
+  | some lens, some rounds, some thr, some count, some size, some stall, some ends =>
+    let cfg : Cfg := { thr := thr, maxCount := count, maxSize := size }
+    let objs := (List.range lens.length).zip lens |>.map fun p => (p.1 + 1, p.2)
+    match wcschedTakeRounds rounds objs with
+    | none => "=> bad-op"
+    | some rs =>
+      if stall.length ≠ ends.length ∨ ends.any (fun e => e > 1) ∨ stall.any (fun v => v = 0 ∨ v > lens.length) then "=> bad-op"
+      else
+        -- the rounds
+        let (s, out) := rs.foldl (fun (acc : BSys × String) r =>
+          let s0 := r.foldl (fun s p => stepB cfg false s (.put p.1 p.2)) acc.1
+          let sent := (pass cfg true (candidates (toSys s0)) []).sent
+          let s1 := stepB cfg false s0 (.pass [])
+          let s2 := wcschedFinishFree cfg stall s1.jobs.length s1
+          (s2, acc.2 ++ " | pass calls=" ++ wcschedShowCalls sent ++ " " ++ wcschedBState s2)) (({} : BSys), "")
+        -- the held calls end in the order of `stall`
+        let (s, out) := (stall.zip ends).foldl (fun (acc : BSys × String) ve =>
+          match acc.1.jobs.findIdx? (fun j => j.given.contains ve.1) with
+          | some i =>
+            let s' := stepB cfg false acc.1 (.finish i (ve.2 == 1))
+            (s', acc.2 ++ " | end " ++ wcschedBState s')
+          | none => (acc.1, acc.2 ++ " | end -")) (s, out)
+        let out :=
+          if o.get? "wait" == some "1" then
+            let s3 := stepB cfg false s (.pass [])
+            let s4 := wcschedFinishFree cfg [] s3.jobs.length s3
+            out ++ " | later " ++ wcschedBState s4
+          else out
+        "=> ok" ++ out
+  | _, _, _, _, _, _, _ => "=> bad-op"
+
+def wcschedStep (o : OpLine) : String :=
+  if o.name == "span" then wcschedSpan o else wcschedPass o
 
 end NeoFS.Driver
